@@ -415,6 +415,55 @@ func init() {
 				}
 			}
 		})
+		if qctx == nil {
+			// the request may be built by a constructor: take the argument that ends up in .ctx
+			ir.EachInstr(enq, func(in ssa.Instruction) {
+				call := ir.CallOf(in)
+				if call == nil {
+					return
+				}
+				callee := call.StaticCallee()
+				if callee == nil || callee.Blocks == nil {
+					return
+				}
+				ir.EachInstr(callee, func(x ssa.Instruction) {
+					if st, ok := x.(*ssa.Store); ok {
+						if fa, ok := st.Addr.(*ssa.FieldAddr); ok && ir.FieldKey(fa) == "protocol/rpcprovider.queuedRequest.ctx" {
+							if p, ok := st.Val.(*ssa.Parameter); ok {
+								for i, q := range callee.Params {
+									if q == p && i < len(call.Args) {
+										qctx = call.Args[i]
+									}
+								}
+							}
+						}
+					}
+				})
+			})
+		}
+		// the worker's report must never block: it sends to qr.result once, possibly after the caller left
+		nRes := 0
+		for _, s := range c.FieldStores("protocol/rpcprovider.queuedRequest.result") {
+			if !inProd(s.Fn) {
+				continue
+			}
+			nRes++
+			st := s.Instr.(*ssa.Store)
+			mk, isMk := st.Val.(*ssa.MakeChan)
+			k, isK := (ssa.Value)(nil), false
+			if isMk {
+				k, isK = mk.Size, true
+			}
+			kc, isConst := k.(*ssa.Const)
+			if isMk && isK && isConst && isIntConst(kc) && kc.Int64() >= 1 {
+				c.OK("C41d/queuedRequest.result/buffered", c.P.InstrPos(st), "make(chan error, "+itoa(int(kc.Int64()))+")")
+			} else {
+				c.Fail("C41d/queuedRequest.result/buffered", c.P.InstrPos(st), "the channel on which the single queue worker reports a request's outcome is not created with capacity >= 1 ("+trunc(ir.Desc(st.Val), 60)+"): the worker blocks for ever on the first request whose caller already left on its deadline, and the queue is never drained again")
+			}
+		}
+		if nRes == 0 {
+			c.Undecided("C41d: no store to queuedRequest.result found")
+		}
 		if sendSel == nil {
 			// already undecided above
 		} else if qctx == nil || waited == nil {
